@@ -13,7 +13,8 @@ RULE = ("every outcome sequence of length L (L=6 quick, 8 thorough; all shorter 
         "oracle: the i-th request made on the multi-node client goes to node i mod n (retries of one request "
         "stay on its node); plus hypothesis-sampled sequences of length <=12 with more failure kinds (read timeout, "
         "non-list JSON error body, 401, arbitrary exception from the transport) and request styles (verb helpers, raw request, "
-        "stream=True, params, timeout, from a second thread) and node lists that name one endpoint several times. Non-trivial: a failure is followed by another request and n>=2. Distinct = (n, sequence).")
+        "stream=True, params, timeout, from a second thread) and node lists that name one endpoint several times; plus several clients obtained through the `<network>.pool` alias of one registered "
+        "network and used in turn (each rotates on its own). Non-trivial: a failure is followed by another request and n>=2. Distinct = (n, sequence).")
 
 J = "application/json"
 OUTCOMES = ["ok", "404", "500", "exc", "retry-ok"]
@@ -111,8 +112,61 @@ def oracle(case):
                                 % (n, i, seq[:i], urls, want), case, "wrong-node")
 
 
+def oracle_alias(case):
+    """Several clients obtained through the `<network>.pool` alias of one registered network, used in turn: each of them is a
+    multi-node client of its own, so the i-th request of EACH client goes to node i mod n."""
+    from pytezos import pytezos
+    from pytezos.context import mixin
+    from pytezos.rpc.node import RpcError
+    n = case["n"]
+    uris = URIS[:n]
+    saved = mixin.nodes.get("verifnet")
+    mixin.nodes["verifnet"] = list(uris)
+
+    def responder(i, method, url):
+        o = case["ops"][state["k"]][1]
+        if o == "ok":
+            return fake_http.make_response(200, b'{"x":1}', J)
+        if o == "404":
+            return fake_http.make_response(404, b'not found', "text/plain")
+        return requests.exceptions.ConnectionError("refused")
+    state = {"k": 0}
+    script = fake_http.Script(responder)
+    clients, counts = {}, {}
+    try:
+        with fake_http.patched(script):
+            for k, (c, o) in enumerate(case["ops"]):
+                state["k"] = k
+                if c not in clients:
+                    clients[c] = pytezos.using(shell="verifnet.pool")
+                    counts[c] = 0
+                before = len(script.calls)
+                try:
+                    clients[c].shell.node.get("chains/main/blocks/head")
+                except (RpcError, requests.exceptions.ConnectionError):
+                    pass
+                urls = [x["url"] for x in script.calls[before:]]
+                want = uris[counts[c] % n]
+                if not urls or any(not u.startswith(want + "/") for u in urls):
+                    raise Violation("n=%d: request #%d of client %d (clients created through the pool alias, history %s) went to %s, "
+                                    "expected node %s" % (n, counts[c], c, case["ops"][:k], urls, want), case, "wrong-node:alias-clients")
+                counts[c] += 1
+    finally:
+        if saved is None:
+            mixin.nodes.pop("verifnet", None)
+        else:
+            mixin.nodes["verifnet"] = saved
+
+
 def replay(case):
+    if "ops" in case:
+        return oracle_alias(case)
     oracle(case)
+
+
+def _prop_alias(case, stats):
+    oracle_alias(case)
+    stats.case(case, case["n"] >= 2 and len({c for c, _ in case["ops"]}) >= 2, "alias-clients:n=%d" % case["n"], sample=case)
 
 
 def _prop(case, stats):
@@ -134,3 +188,6 @@ def run(h):
         "n": st.integers(1, 4), "seq": st.lists(st.sampled_from(MORE_OUTCOMES), min_size=k, max_size=k),
         "styles": st.lists(st.sampled_from(STYLES), min_size=k, max_size=k), "uris": uri_lists}))
     h.run_given(lambda: styled, _prop, h.n(150, 3000), shards=16, name="styled")
+    alias = st.fixed_dictionaries({"n": st.integers(1, 4), "ops": st.lists(st.tuples(st.integers(0, 2), st.sampled_from(["ok", "ok", "404", "exc"])),
+                                                                             min_size=2, max_size=12).map(lambda l: [list(x) for x in l])})
+    h.run_given(lambda: alias, _prop_alias, h.n(40, 1500), shards=16, name="alias-clients")
